@@ -21,6 +21,14 @@ NOTES = ("Every claimed check = (1) proof gate: full coqc build of coq/props/<id
          "current working tree; (3) direct monitors that search for a concrete failing input.  See DESIGN.md.")
 
 CLAIMS = {
+    "C05": dict(
+        engine="opt", design_ref="DESIGN.md section 4 C05",
+        technique="Coq proof on IEEE binary64 (Flocq model of primitive floats) + induction over the run + bit-exact replay",
+        text="Theorem (binary64, every configuration with kt_start = +0 and kt_ratio in [0,1] or absent, every kt_finish, "
+             "step counts, oracle and random stream with thresholds >= 0): the temperature stays +0 in every loop and the "
+             "held score is non-decreasing between any two points of the run, so the result is at least the input score. "
+             "Key float facts proved through Flocq: x<y -> (x-y)/+0 = -inf; 0*(1-r) = +0 for r in [0,1]; <= is transitive.",
+        note=OPT_NOTE + "  Premise: libm exp(-inf) = 0."),
     "C06": dict(
         engine="opt", design_ref="DESIGN.md section 4 C06",
         technique="Coq proof by induction over the draw list (any Num instance, any oracle) + bit-exact model/impl replay",
@@ -62,4 +70,4 @@ CLAIMS = {
 
 _NOT_YET = "not claimed yet: the model/theorems/engine for this property are still being built (see DESIGN.md section 7)"
 NOT_APPLICABLE = {p: _NOT_YET for p in
-                  ["C01", "C02", "C03", "C04", "C05", "C08", "C09", "C10", "C11", "C12", "C13", "C14", "C15", "C16", "C17"]}
+                  ["C01", "C02", "C03", "C04", "C08", "C09", "C10", "C11", "C12", "C13", "C14", "C15", "C16", "C17"]}
